@@ -161,6 +161,21 @@ def run(P, R, tier):
             R.check(deleg or empty, 'C03.j', w, s_, f'HilbertRtree.{wname} returns the traversal\'s answer (or an empty answer)',
                     f'`{norm(s_)}` answers without the tree traversal: rows with NaN boxes (missing / empty geometries) are not filtered out and are reported as intersecting / covered',
                     construct=f'HilbertRtree.{wname} delegates')
+        # ... and the traversal is asked the caller's question: the query it receives is the wrapper's argument, converted element by element
+        # (float / tuple / array), not clipped, widened or combined with anything the index knows (its extent, its page size)
+        qp = w.params[1] if len(w.params) > 1 else None
+        ALLOWED = {'float', 'tuple', 'list', 'np.asarray', 'np.array', 'np.ascontiguousarray', 'np.float64', 'int'}
+        for x in [c for c in astq.own_calls(w) if isinstance(c.func, ast.Attribute) and c.func.attr == wname and 'numba_rtree' in norm(c.func.value) and c.args]:
+            a_ = astq.expand(w, x.args[0])
+            srcs = astq.sources(w, x.args[0]) - {'np', 'float', 'tuple', 'list', 'int'}
+            calls = [norm(c.func) for c in ast.walk(a_) if isinstance(c, ast.Call) and not (isinstance(c.func, ast.Attribute) and c.func.attr in ('astype', 'tolist', 'ravel'))]
+            loopvars = {g_.target.id for c in ast.walk(a_) if isinstance(c, (ast.GeneratorExp, ast.ListComp)) for g_ in c.generators if isinstance(g_.target, ast.Name)}
+            ok = qp is not None and srcs - loopvars <= {qp} and all(c in ALLOWED for c in calls) and not any(isinstance(n_, ast.Attribute) and isinstance(n_.value, ast.Name) and n_.value.id == 'self'
+                                                                                                               for n_ in ast.walk(a_))
+            R.check(ok, 'C03.j', w, x, f'HilbertRtree.{wname} hands the caller\'s query to the traversal (element-wise conversion only)',
+                    f'`{norm(x)[:90]}`: the query handed to the traversal is computed from {sorted(srcs - loopvars)} with {sorted(set(calls) - ALLOWED)}: a modified query box (clipped to the extent, '
+                    'widened, reordered) classifies rows on the rim differently - a box disjoint from the data collapses onto its edge and "covers" the zero-extent rows there',
+                    construct=f'HilbertRtree.{wname} query passed through')
     # C03.k: a query does not write the index object (its answer is allocated per call): otherwise an answer handed out earlier changes
     # when the next query runs
     qm = [m_[1] for cn_ in ('_NumbaRtree', 'HilbertRtree') for nm_, m_ in P.cls(f'{MOD}.{cn_}').members.items()
